@@ -228,6 +228,23 @@ def check_char_and_extern(cx, chk):
                             good_err = True
                     if not good_err:
                         probs.append("Err(e) is not turned into Err(entry.report_error(ExternRuleFailed{e})): %s" % [mir.show(r) for r in err_ret])
+                    # the rule matches EXACTLY when the function returns Ok: each return is decided by the function's
+                    # Ok/Err alone (no further condition), one return per outcome
+                    for d0 in b.defs.get(0, []):
+                        if d0[2] != "rv":
+                            probs.append("a return value is computed by a call")
+                            continue
+                        r = norm(b.expr_rv(d0[3]))
+                        at = b.atoms(d0[0])
+                        on_u = [(e, v) for (e, v, dd) in at if e[0] == "discr" and e[1] == U]
+                        others = [(e, v) for (e, v, dd) in at if not (e[0] == "discr" and e[1] == U)]
+                        want = 0 if (r[0] == "agg" and r[2] == "Ok") else 1
+                        if not on_u or any(v != want for (e, v) in on_u):
+                            probs.append("a rule %s is returned although the extern function returned %s" % ("success" if want == 0 else "failure", "Err" if want == 0 else "Ok"))
+                        if others:
+                            probs.append("the outcome of the rule depends on more than the function's Ok/Err: %s" % [mir.show(e)[:80] for (e, v) in others])
+                    if len(ok_ret) != 1 or len(err_ret) != 1:
+                        probs.append("expected exactly one Ok and one Err outcome, found %d/%d" % (len(ok_ret), len(err_ret)))
                 if probs:
                     for pr in probs:
                         chk.violation("C14.extern", tag + " " + pr.split(":")[0][:70], pr, cx.site(b))
